@@ -1,5 +1,6 @@
 SPECIFICATION MSpec
 CONSTANTS
+  Deviations = {"optfix", "expelled", "sortedset", "dsmap"}
   Scope = "none"
   Large = FALSE
   NV = 1
